@@ -1039,6 +1039,17 @@ def B1(ctx):
                     skip_edges.append((b, list(tg)[0]))
                 break
         ok = bool(zero_tests) and bool(skip_edges)
+        # iterator form of the same walk: the primary branch is what `find_map` / `find` selects from the points `0..=point`
+        # taken in reverse, with the exploring test inside the search closure - every earlier point is examined until one matches
+        if not zero_tests and primary is not None:
+            recv = canon(arg_expr(body, body.term(primary), 0))
+            searched = ("Iterator::find_map(" in recv or "Iterator::find(" in recv) and "Iterator::rev(" in recv and \
+                "RangeInclusive::<Idx>::new(0, " in recv
+            guarded = any(is_field(e, SCH, "exploring") and pol is True for (e, pol, v, sb) in guard_atoms(body, primary))
+            if searched and guarded:
+                ctx.ok("B1", fk + ":walk-back", "the primary branch is the first exploring schedule found among the points 0..=point in reverse",
+                       [site_str(prog, fk, primary)])
+                return
         for (sb, tgt) in skip_edges:
             r = body.reachable(tgt, blocked=set(zero_tests))
             if any(body.term(x)["k"] == "return" for x in r):
